@@ -58,9 +58,9 @@ CLAIMED = {
    note=T + "Largest trusted piece: the syntactic, intra-procedural escape analysis and its reviewed-site table; mutation through aliases made in another function, setattr or C extensions is found by the snapshot search only.",
    design="§5 C10"),
  "C11": dict(
-   technique="Lean 4 theorems over an executable model of replace_step incl. the Fitter as a state machine, fits_trivially, delete_range, replace_range, replace_range_with and close_fragment: the emitted step starts at `from`, extends the range only over close tokens, inserts only an in-order subsequence of the requested text (content preservation for every fitted replace step, delete_range and replace_range as wholes); TERMINATION of the fitting loop characterised exactly (fitLoop_outOfFuel_exact); loop invariants inStep and coherent (frontier matches = automaton states after the placed children) proved; the emitted step is WELL-FORMED (fit_emits_wf) and, for deletions, a VALID PAYLOAD (delete_emits_valid_payload); TOTALITY proved for deletions and closed slices of leaf/text nodes; for DELETIONS the property's second sentence is proved end to end on the returned document (delete_valid, deleteRange_valid: valid, everything outside the range kept, exactly the text inside removed), for inline insertions and arbitrary valid slices when the answer is a plain replace step (…_valid_partial: one residual for replace-around answers); exact correspondence of the emitted step with the real replace_step / delete_range / replace_range on every generated case, guards and invariants evaluated on every request and after every loop iteration; totality for other slices by search over the bundled family",
+   technique="Lean 4 theorems over an executable model of replace_step incl. the Fitter as a state machine, fits_trivially, delete_range, replace_range, replace_range_with and close_fragment: the emitted step starts at `from`, extends the range only over close tokens, inserts only an in-order subsequence of the requested text (content preservation for every fitted replace step, delete_range and replace_range as wholes); TERMINATION of the fitting loop characterised exactly (fitLoop_outOfFuel_exact); loop invariants inStep and coherent (frontier matches = automaton states after the placed children) proved; the emitted step is WELL-FORMED (fit_emits_wf) and a VALID PAYLOAD (fit_emits_valid_payload: for every slice cut from a valid document, under a decidable run hypothesis evaluated on every request); TOTALITY proved for deletions and closed slices of leaf/text nodes; for DELETIONS the property's second sentence is proved end to end on the returned document (delete_valid, deleteRange_valid: valid, everything outside the range kept, exactly the text inside removed), for inline insertions and arbitrary valid slices when the answer is a plain replace step (…_valid_partial: one residual for replace-around answers); exact correspondence of the emitted step with the real replace_step / delete_range / replace_range on every generated case, guards and invariants evaluated on every request and after every loop iteration; totality for other slices by search over the bundled family",
    text="{n} kernel-checked theorems (Props/C11.lean; Proofs/Fitter, FitterText, RangeOps, ReplaceRange, Respects, FitMeasure, FitTerm, FitLoop, FitTotal, FitDelete, FitInline, FillOrder, FitInv, FitInStep, FitCoherent, FitValid, FitPayload, FitAround, FitTail, InsertAtValid). The Fitter model agrees with the real fitter on >10^5 generated requests per thorough run.",
-   note=T + "fitter_respects is partial for replace-around steps except for deletions; 'never raises' for slices that get opened and payload validity without the (decidable, always observed true) run hypothesis fitEndInv are not proved (open finding C11-fitter-partial-node: clipboard-style slices) and are decided by search; success of applying an emitted step is not a theorem (the tie applies every emitted step); a divergence example outside the bundled family is proved in the model and reproduced on the real code in every run; termination of the real loops by a per-call alarm. For the bundled schema family the schema-level guards are themselves theorems: the schemas are regenerated as Lean data from the running library on every run and the guards evaluated by the kernel (lean/Gen, lean/Family: closed corollaries without schema hypotheses).",
+   note=T + "fitter_respects is partial for replace-around steps except for deletions; 'never raises' for slices that get opened is reduced to two raise sites (fit_raise_sites) and not proved (open finding C11-fitter-partial-node: clipboard-style slices) and are decided by search; success of applying an emitted step is not a theorem (the tie applies every emitted step); a divergence example outside the bundled family is proved in the model and reproduced on the real code in every run; termination of the real loops by a per-call alarm. For the bundled schema family the schema-level guards are themselves theorems: the schemas are regenerated as Lean data from the running library on every run and the guards evaluated by the kernel (lean/Gen, lean/Family: closed corollaries without schema hypotheses).",
    design="§5 C11"),
  "C12": dict(
    technique="Lean 4 theorems over executable models of the four builders (lift, wrap, split, join) and all helpers (can_split, can_join, join_point, lift_target, find_wrapping, insert_point, drop_point, can_change_type): every built step is structural and, if it applies, preserves the text/leaf sequence exactly; returned positions/depths are in range; the helpers never raise on valid documents and in-range, aligned input; AN APPROVED EDIT SUCCEEDS for split, join, join_point, wrap, lift, insert_point (incl. inside text and marked nodes at top level), drop_point (closed slices, first pass), can_change_type → set_node_markup, each under decidable guards found by the proofs, with counterexamples; exact correspondence of every built step, every helper answer and the guards",
